@@ -13,13 +13,18 @@
 (*     (the Impl* invariants delimit what each deviation can affect);      *)
 (*   - every state is printed and replayed on the real utils.Plane, whose  *)
 (*     projected state and answers are compared with both copies.          *)
-(* Actions: AAdd, ARemove (the history), AFind, AIter (observations; they  *)
+(* Actions: AAdd, ARemove, ARemoveRejected (the history; the last is a     *)
+(* remove() that raises KeyError), AFind, AIter (observations; they         *)
 (* leave the index unchanged and only fill `res`).                         *)
 (***************************************************************************)
 EXTENDS PlaneOps, TLC, Json
 
 CONSTANTS Setups,     \* set of [id, box: <<box,...>>, qs: <<query,...>>, pb: bounds, g: gridsize, u: unit denominator]
           MaxOps,     \* histories of up to MaxOps insertions/removals
+          ObsDepth,   \* the observation actions AFind/AIter are taken after histories of up to ObsDepth calls (their
+                      \* answers are checked in EVERY state by the state invariants; this only bounds the extra states)
+          MaxOdd,     \* how many duplicate adds and rejected calls together per history
+          MaxRej,     \* how many rejected calls (remove() of an object that is not in the index) per history
           MaxDup,     \* how many times per history an object that is already in the index may be added again
           Dev         \* deviations of the code modelled as coded
 
@@ -34,10 +39,11 @@ Init == /\ su \in Setups
         /\ ideal = S0 /\ impl = S0
         /\ res = <<>>
 
+RejCount(h) == Cardinality({i \in 1..Len(h) : h[i][1] = "xremove"})
 DupCount(h) == Cardinality({i \in 1..Len(h) : h[i][1] = "add" /\ h[i][2] \in RefLive(SubSeq(h, 1, i - 1))})
 
 AddObj(o) == /\ res = <<>> /\ Len(hist) < MaxOps
-             /\ o \notin RefLive(hist) \/ DupCount(hist) < MaxDup
+             /\ o \notin RefLive(hist) \/ (DupCount(hist) < MaxDup /\ DupCount(hist) + RejCount(hist) < MaxOdd)
              /\ hist' = Append(hist, <<"add", o>>)
              /\ ideal' = Add(ideal, o, Cells(su.box[o], {}), {})
              /\ impl' = Add(impl, o, Cells(su.box[o], Dev), Dev)
@@ -50,22 +56,32 @@ RemoveObj(o) == /\ res = <<>> /\ Len(hist) < MaxOps
                 /\ impl' = Remove(impl, o, Cells(su.box[o], Dev), Dev)
                 /\ UNCHANGED <<su, res>>
 
+\* remove() of an object that was never added or has been removed already: KeyError, and the index - the intended one
+\* and the one as coded - must answer every query as before (all state invariants are evaluated after this step too)
+RemoveRejectedObj(o) == /\ res = <<>> /\ Len(hist) < MaxOps
+                        /\ o \notin RefLive(hist) /\ RejCount(hist) < MaxRej /\ DupCount(hist) + RejCount(hist) < MaxOdd
+                        /\ hist' = Append(hist, <<"xremove", o>>)
+                        /\ ideal' = ideal
+                        /\ impl' = RemoveRejected(impl, o, Cells(su.box[o], Dev), Dev)
+                        /\ UNCHANGED <<su, res>>
+
 FI(i) == FindRes(ideal, su.qs[i], Cells(su.qs[i], {}), su.box)
 FM(i) == FindRes(impl, su.qs[i], Cells(su.qs[i], Dev), su.box)
 
-FindQuery(i) == /\ res = <<>>
+FindQuery(i) == /\ res = <<>> /\ Len(hist) <= ObsDepth
                 /\ res' = [op |-> "find", q |-> i, ideal |-> FI(i), impl |-> FM(i)]
                 /\ UNCHANGED <<su, hist, ideal, impl>>
 
-AIter == /\ res = <<>>
+AIter == /\ res = <<>> /\ Len(hist) <= ObsDepth
          /\ res' = [op |-> "iter", ideal |-> IterRes(ideal), impl |-> IterRes(impl)]
          /\ UNCHANGED <<su, hist, ideal, impl>>
 
 AAdd    == \E o \in Objs : AddObj(o)                 \* Plane.add
 ARemove == \E o \in Objs : RemoveObj(o)              \* Plane.remove
+ARemoveRejected == \E o \in Objs : RemoveRejectedObj(o)   \* Plane.remove raising KeyError
 AFind   == \E i \in DOMAIN su.qs : FindQuery(i)      \* Plane.find
 
-Next == AAdd \/ ARemove \/ AFind \/ AIter
+Next == AAdd \/ ARemove \/ ARemoveRejected \/ AFind \/ AIter
 Spec == Init /\ [][Next]_vars
 
 \* ------------------------------------------------------------------ C20 (index), intended design
@@ -93,6 +109,14 @@ ObservationsPure == [][res' # <<>> => (ideal' = ideal /\ impl' = impl)]_vars
 DupHit == "AddNotIdempotent" \in Dev /\ HasDupAdd(hist)
 ReAddHit == "SeqKeepsRemoved" \in Dev /\ HasReAdd(hist)
 TruncHit(b) == "DrangeTrunc" \in Dev /\ Cells(b, Dev) # Cells(b, {})
+
+\* a rejected call leaves the intended index untouched, and the index as coded answers as before
+RejectedChangesNothing ==
+  [][(Len(hist') > Len(hist) /\ hist'[Len(hist')][1] = "xremove") =>
+        /\ ideal' = ideal
+        /\ IterRes(impl') = IterRes(impl) /\ impl'.objs = impl.objs
+        /\ (~DupHit => \A i \in DOMAIN su.qs :
+               FindRes(impl', su.qs[i], Cells(su.qs[i], Dev), su.box) = FindRes(impl, su.qs[i], Cells(su.qs[i], Dev), su.box))]_vars
 
 ImplLive == AtRest => impl.objs = RefLive(hist)
 ImplIter == (AtRest /\ ~DupHit /\ ~ReAddHit) => IterRes(impl) = RefIter(hist)
